@@ -7,6 +7,8 @@ LEVEL = "Bounded symbolic model checking of the implementation: the real functio
 TRUST = "Trusted: the shims in /verif/symx (numpy/pandas/file-system/RNG/joblib contracts of DESIGN.md section 1.3, differentially validated against the real libraries on sampled paths at every run), z3, float = mathematical real, typeguard/numba made transparent."
 CHECKS = {
  "C01": ("section 2 C01", "N <= 4 (quick) / 5 (thorough) PSMs; score dtypes float/int; label dtypes bool/int/float; both directions; symbolic eval_fdr. " + TRUST),
+ "C11": ("section 2 C11", "dataset.calibrate_scores and OnDiskPsmDataset.calibrate_scores (targets read from a VFS file, encodings 1/-1, 1/0, bool) on N <= 4 (quick) / 5 (thorough) PSMs, symbolic scores/targets/eval_fdr; premise: >= 1 decoy and lowest accepted target strictly above the decoy median; real tdc for N <= 3, above that q-values constrained by the C01 formula. The per-fold application inside brew._predict is an obligation of the C02 harness. " + TRUST),
+ "C12": ("section 2 C12", "Model.fit / predict with a recording estimator on N <= 3, 2 iterations (quick) / N <= 4, 3 iterations (thorough): arbitrary RNG permutation, shuffle symbolic, symbolic labels/features/train_fdr/estimator scores; tdc replaced by q-values constrained by the C01 formula (C01 discharges it). The pickle round trip is outside. " + TRUST),
  "C13": ("section 2 C13", "tables of N <= 4 (quick) / 6 (thorough) rows x 3 columns (numeric, string, bool), chunk size 1..N+1, five column subsets/orders, every split of the rows into appends, buffer size 2..N, buffer kinds DataFrame and Dicts. The REAL reader/writer classes run; pandas.read_csv / to_csv / pyarrow are VFS-backed contracts (codecs trusted, batch/column-order contract probed on the installed pyarrow). TableType.Records and the sqlite writer are outside. " + TRUST),
  "C14": ("section 2 C14", "merge_sort/get_next_row over VFS files and MergedTabularDataReader (Dicts and DataFrame rows, read, chunked, merge_readers) over real DataFrameReaders: <= 3 inputs of <= 3 rows, total <= 6 (quick) / <= 4 inputs, total <= 7 (thorough), ties allowed, reader chunk size 1..max+1, both directions; unsorted inputs either rejected or merged monotonically. Parquet row iteration is exercised concretely in the replay. " + TRUST),
  "C15": ("section 2 C15", "picked_protein on <= 3 (quick) / 4 (thorough) peptides, <= 2 target/decoy pairs incl. two-member groups, peptide notations from a finite family, symbolic scores and labels, arbitrary tie-breaking permutation; group names as built by the real read_fasta for corresponding entry orders. Known finding: groups whose members are listed in a different order in target and decoy are not paired. Protein-level q-values are covered by C01/C03. " + TRUST),
